@@ -26,6 +26,26 @@ def history_from_random(run, tag):
     return keep
 
 
+def history_bigfree(nkeys=64, nvals=6):
+    """A synthetic history whose free list spans more than one page (profile overflow: values of up to 9 pages):
+    a nested bucket with nkeys/2 large values is created and deleted (its pages are released by the next writer), then
+    small commits follow -- each of them rewrites a free list that keeps its number of pages."""
+    def op(t, c, p, k, v=0):
+        return dict(a="op", t=t, c=c, p=p, k=k, v=v, lk="U", lo=0, hk="U", hi=0)
+    steps = []
+    t = 1
+    steps += [dict(a="begin", t=t, w=True), op(t, "gocb", [], 0), op(t, "put", [0], 1, 4), op(t, "mkb", [0], nkeys - 1)]
+    steps += [op(t, "put", [0, nkeys - 1], k, (k % 5) + 1) for k in range(nkeys // 2)]
+    steps += [dict(a="commit", t=t)]
+    t += 1
+    steps += [dict(a="begin", t=t, w=True), op(t, "delb", [0], nkeys - 1), dict(a="commit", t=t)]
+    for i in range(4):
+        t += 1
+        steps += [dict(a="begin", t=t, w=True), op(t, "put", [0], 2 + i, 4), op(t, "put", [0], 1, 0 if i % 2 else 4),
+                  dict(a="commit", t=t)]
+    return steps
+
+
 def fault_runs(verdict, run, steps, tag, scope=None, extra=()):
     build_harness()
     d = scratch()
